@@ -2,7 +2,9 @@ package main
 
 import (
 	"fmt"
+	"go/constant"
 	"go/token"
+	"go/types"
 	"strings"
 
 	"golang.org/x/tools/go/ssa"
@@ -356,7 +358,64 @@ func (c *Ctx) prunedAccessors() {
 			}
 		}
 		c.check(okv, R, n+" compares the requested hash index with the cell's own", f.Pos(), "index != offset selects the stored value", n+" no longer selects between stored and own value by comparing hash indices")
+		// polarity: the stored bytes are read where the cell IS a pruned branch and the indices DIFFER
+		var sl *ssa.Slice
+		allInstrs(f, func(_ *ssa.BasicBlock, in ssa.Instruction) {
+			if x, ok := in.(*ssa.Slice); ok && x.Low != nil {
+				sl = x
+			}
+		})
+		if sl == nil {
+			continue
+		}
+		pruned, differ := false, false
+		for _, ft := range factsAt(f, sl.Block()) {
+			bo, ok := ft.Cond.(*ssa.BinOp)
+			if !ok || (bo.Op != token.NEQ && bo.Op != token.EQL) {
+				continue
+			}
+			eq := (bo.Op == token.EQL) == ft.Truth
+			if derivesFrom(bo.X, callResult(bocPath+".levelMask.HashIndex"), false) && derivesFrom(bo.Y, callResult(bocPath+".levelMask.HashIndex"), false) {
+				differ = !eq
+				continue
+			}
+			for _, pr := range [][2]ssa.Value{{bo.X, bo.Y}, {bo.Y, bo.X}} {
+				if k, ok := constInt(pr[1]); ok && k == c.constValue("boc", "PrunedBranchCell") && isFieldLoadOfType(pr[0], "CellType") {
+					pruned = eq
+				}
+			}
+		}
+		c.check(pruned && differ, R, n+" reads stored bytes only for a pruned branch and a foreign level", sl.Pos(), "cellType == PrunedBranchCell and index != offset", n+fmt.Sprintf(" slices the stored hashes/depths under [is a pruned branch: %v, requested index differs from own: %v]; the stored values exist only in a pruned branch and answer only for the levels above the cell's own - any other cell (or level) has no such bytes and gets garbage or a panic", pruned, differ))
 	}
+}
+
+// constValue: the integer value of a package-level constant (-1 when absent).
+func (c *Ctx) constValue(rel, name string) int64 {
+	p := c.pkg(rel)
+	if p == nil {
+		return -1
+	}
+	if cst, ok := p.Types.Scope().Lookup(name).(*types.Const); ok {
+		if v, ok := constant.Int64Val(constant.ToInt(cst.Val())); ok {
+			return v
+		}
+	}
+	return -1
+}
+
+// isFieldLoadOfType: v is a load of a struct field whose type is the named type tn.
+func isFieldLoadOfType(v ssa.Value, tn string) bool {
+	u, ok := stripConv(v).(*ssa.UnOp)
+	if !ok || u.Op != token.MUL {
+		return false
+	}
+	fa, ok := u.X.(*ssa.FieldAddr)
+	if !ok {
+		return false
+	}
+	n, ok := u.Type().(*types.Named)
+	_ = fa
+	return ok && n.Obj().Name() == tn
 }
 
 // affineIn: e == base + stride*v for a single variable v.
@@ -674,7 +733,80 @@ func (c *Ctx) levelMaskAlgebra() {
 		}
 		c.check(single && zero, R, "IsSignificant(level) = level == 0 || bit level-1 of the mask", f.Pos(), "single-bit test of m >> (level-1)", "levelMask.IsSignificant no longer tests exactly one bit of the mask (forms like 'any bit at or above' or 'any bit below' agree with it only for masks without a gap): cells with mask 0b10 or 0b101 get an extra or a missing hash and a wrong descriptor byte")
 	}
-	c.floor(R, 4)
+	c.levelMaskExact()
+	c.floor(R, 6)
+}
+
+// levelMaskExact: the constants of the two defining forms that the shape rules above leave open.
+//
+//	Level: W - LeadingZerosW(m) with W the width of the counted word (or bits.LenW(m));
+//	IsSignificant: the tested bit is bit level-1 (shift by level-1, or mask 1<<(level-1)), and the
+//	result is true when that bit is SET.
+func (c *Ctx) levelMaskExact() {
+	const R = "E11.level-mask"
+	if f := c.fn("boc", "levelMask.Level"); f != nil {
+		okv, desc := false, "?"
+		for _, r := range returnsOf(f) {
+			v := stripConv(retVal(r, 0))
+			if cl := callOf(v); cl != nil && strings.HasPrefix(callQName(&cl.Call), "math/bits.Len") {
+				okv, desc = true, "bits.Len"
+			}
+			if bo, ok := v.(*ssa.BinOp); ok && bo.Op == token.SUB {
+				if cl := callOf(stripConv(bo.Y)); cl != nil {
+					w := map[string]int64{"math/bits.LeadingZeros32": 32, "math/bits.LeadingZeros64": 64, "math/bits.LeadingZeros": 64, "math/bits.LeadingZeros16": 16, "math/bits.LeadingZeros8": 8}[callQName(&cl.Call)]
+					if k, ok := constInt(bo.X); ok {
+						desc = fmt.Sprintf("%d - %s", k, shortQ(callQName(&cl.Call)))
+						okv = w != 0 && k == w
+					}
+				}
+			}
+		}
+		c.check(okv, R, "Level: word width minus leading zeros", f.Pos(), desc, "levelMask.Level computes "+desc+": the bit length of a W-bit word is W minus its leading zeros; any other constant shifts every level by a fixed amount")
+	}
+	if f := c.fn("boc", "levelMask.IsSignificant"); f != nil && len(f.Params) == 2 {
+		lvl := ssa.Value(f.Params[1])
+		isLvlMinus1 := func(v ssa.Value) bool {
+			bo, ok := stripConv(v).(*ssa.BinOp)
+			if !ok || bo.Op != token.SUB || stripConv(bo.X) != lvl {
+				return false
+			}
+			k, ok := constInt(bo.Y)
+			return ok && k == 1
+		}
+		okv, desc := false, "?"
+		for _, r := range returnsOf(f) {
+			v := retVal(r, 0)
+			if _, isConst := v.(*ssa.Const); isConst {
+				continue
+			}
+			cmp, ok := v.(*ssa.BinOp)
+			if !ok {
+				continue
+			}
+			desc = shape(cmp, 4)
+			k, isK := constInt(cmp.Y)
+			setWhenTrue := isK && ((cmp.Op == token.NEQ && k == 0) || (cmp.Op == token.GTR && k == 0) || (cmp.Op == token.EQL && k == 1))
+			bit, ok := stripConv(cmp.X).(*ssa.BinOp)
+			if !ok || !setWhenTrue {
+				continue
+			}
+			one := func(v ssa.Value) bool { k, ok := constInt(v); return ok && k == 1 }
+			two := func(v ssa.Value) bool { k, ok := constInt(v); return ok && k == 2 }
+			switch {
+			case (bit.Op == token.REM && two(bit.Y)) || (bit.Op == token.AND && one(bit.Y)):
+				if sh, ok := stripConv(bit.X).(*ssa.BinOp); ok && sh.Op == token.SHR && isLvlMinus1(sh.Y) {
+					okv = true
+				}
+			case bit.Op == token.AND:
+				for _, side := range []ssa.Value{bit.X, bit.Y} {
+					if sh, ok := stripConv(side).(*ssa.BinOp); ok && sh.Op == token.SHL && one(sh.X) && isLvlMinus1(sh.Y) {
+						okv = true
+					}
+				}
+			}
+		}
+		c.check(okv, R, "IsSignificant tests bit level-1 and is true when it is set", f.Pos(), desc, "levelMask.IsSignificant returns "+desc+"; level L (1..3) is significant exactly when bit L-1 of the mask is set")
+	}
 }
 
 // cacheOnlyComplete: the cell -> immutable-cell cache is shared by every call through one Hasher.
